@@ -62,6 +62,16 @@ class Prop(G.InputPropBase):
             data = b"".join(G.item_bytes(i) for i in items) + b"x"
             cs.append(Case("I " + split_runs(data), sweep="every-split", cfgs=["C06"], tag="every-split"))
             cs.append(Case("I " + split_runs(G.DIRTY + data), sweep="every-split-dirty", cfgs=["C06"], tag="every-split"))
+        # deliveries interleaved with output-side operations on the same terminal (resize notification, drawing):
+        # the partition is still a partition of the same stream
+        OPS = ["@sz.10.5", "@sz.80.24", "@we", "@mv.1.1", "@er", "@hc"]
+        for items in reps[::3]:
+            data = b"".join(G.item_bytes(i) for i in items) + b"x"
+            runs = []
+            for cut in range(1, len(data)):
+                runs.append("%s,%s,%s" % (G.hx(data[:cut]), OPS[(cut + len(data)) % len(OPS)], G.hx(data[cut:])))
+            runs.append(G.hx(data))
+            cs.append(Case("I " + " / ".join(runs), sweep="every-split-with-output-ops", cfgs=["C06"], tag="split-with-ops"))
         for state, pre in G.PREFIXES:
             for b in range(256):
                 suffix = b"1;2~x"
